@@ -1,5 +1,6 @@
 import FeatherModel.Base.Driver
 import FeatherModel.Model.Remapper
+import FeatherModel.Model.RemapperSpec
 import FeatherModel.Spec.DescGrammar
 
 open Driver Sexp Codec Remapper
@@ -94,7 +95,7 @@ def handle (op : String) (args : List Sexp) : Option Ans :=
     pure (match remapperA m src dst with
       | none => ood
       | some t =>
-        if (mapDescWith t d).isNone == (MapDesc.mapDesc id d).isNone then pass else fail "differs")
+        if (mapDescWith t d).isNone == !MapDesc.accepts d then pass else fail "differs")
   | "oracle-member-resolution", [m, kind, src, dst, sup, owner, n, d] => do
     let m ← mappingsFrom m; let kind ← toTag? kind; let sel ← selOf kind
     let src ← toNat? src; let dst ← toNat? dst; let sup ← supersFrom sup
@@ -106,6 +107,35 @@ def handle (op : String) (args : List Sexp) : Option Ans :=
         | none => ood
         | some order =>
           match mapMemberFail sel r sup (defaultFuel r) owner (n, d) with
+          | none => fail "fuel"
+          | some res => if res == firstHit sel r (n, d) order then pass else fail "differs")
+  | "oracle-member-nearest", [m, kind, src, dst, sup, owner, n, d] => do
+    let m ← mappingsFrom m; let kind ← toTag? kind; let sel ← selOf kind
+    let src ← toNat? src; let dst ← toNat? dst; let sup ← supersFrom sup
+    let owner ← toJStr? owner; let n ← toJStr? n; let d ← toJStr? d
+    pure (match remapperB m src dst with
+      | none => ood
+      | some r =>
+        match dfsAll sup (allFuel sup) owner with
+        | none => ood
+        | some order =>
+          if !allMapped r order then ood
+          else
+            match mapMemberFail sel r sup (max (allFuel sup) (defaultFuel r)) owner (n, d) with
+            | none => fail "fuel"
+            | some res => if res == firstHit sel r (n, d) order then pass else fail "differs")
+  -- the full-strength statement (no `allMapped` domain); never generated, only replayed for the known finding
+  | "oracle-member-nearest-full", [m, kind, src, dst, sup, owner, n, d] => do
+    let m ← mappingsFrom m; let kind ← toTag? kind; let sel ← selOf kind
+    let src ← toNat? src; let dst ← toNat? dst; let sup ← supersFrom sup
+    let owner ← toJStr? owner; let n ← toJStr? n; let d ← toJStr? d
+    pure (match remapperB m src dst with
+      | none => ood
+      | some r =>
+        match dfsAll sup (allFuel sup) owner with
+        | none => ood
+        | some order =>
+          match mapMemberFail sel r sup (max (allFuel sup) (defaultFuel r)) owner (n, d) with
           | none => fail "fuel"
           | some res => if res == firstHit sel r (n, d) order then pass else fail "differs")
   | "oracle-fallback", [m, kind, src, dst, sup, owner, n, d] => do
